@@ -234,29 +234,44 @@ def grouped_twice(api, cls, seq, bindings, preset, src_ns, expect_st, as_set) ->
     written once per sink and must be delivered correctly each time."""
     if len(seq) != 2 or not bindings:
         return []
+    fails = _grouped(api, cls, [[st] for st in seq], bindings, preset, src_ns, expect_st, as_set,
+                     "two sinks with the same bindings")
+    # ... and when the first container holds bindings but no statement at all
+    fails += _grouped(api, cls, [[], list(seq)], bindings, preset, src_ns, expect_st, as_set,
+                      "an empty first sink with bindings, then a sink with statements")
+    return fails
+
+
+def _grouped(api, cls, groups, bindings, preset, src_ns, expect_st, as_set, what) -> list:
     opts = DR.make_options(cls, preset, 250, True, ns=True, generalized=False, rdf_star=False)
     out = io.BytesIO()
     try:
         if api == "generic":
             from pyjelly.integrations.generic import serialize as gser  # noqa: PLC0415
 
-            gser.grouped_stream_to_file((DR.g_sink([st], bindings) for st in seq), out,
+            gser.grouped_stream_to_file((DR.g_sink(g, bindings) for g in groups), out,
                                         options=opts)
         else:
             from pyjelly.integrations.rdflib import serialize as rser  # noqa: PLC0415
 
-            rser.grouped_stream_to_file((r_source(cls, [st], bindings) for st in seq), out,
+            rser.grouped_stream_to_file((r_source(cls, g, bindings) for g in groups), out,
                                         options=opts)
-        _, per = jspec.decode_frames(jwire.read_delimited(out.getvalue()))
     except Exception as e:  # noqa: BLE001
-        return [("grouped-twice-raised", f"two sinks with the same bindings: {type(e).__name__}: {e}")]
+        if not groups[0]:
+            return []  # (an empty first container may be refused: the entry point guesses the
+            #            stream class from it; only what is written is judged)
+        return [("grouped-twice-raised", f"{what}: {type(e).__name__}: {e}")]
+    try:
+        _, per = jspec.decode_frames(jwire.read_delimited(out.getvalue()))
+    except (jspec.SpecViolation, jwire.WireError) as e:
+        return [("grouped-twice", f"{what}: output rejected by the reference decoder: {e}")]
     ns = [(n, i[1]) for n, i in jspec.namespaces(per)]
     if ns != src_ns + src_ns:
-        return [("grouped-twice", f"two sinks with bindings {src_ns} written through one stream "
+        return [("grouped-twice", f"{what} (bindings {src_ns}) written through one stream "
                                   f"declare {ns}")]
     got = [T.norm_st(x) for x in jspec.statements(per)]
     if (set(got) != set(expect_st)) if as_set else (got != expect_st):
-        return [("grouped-twice", f"statements changed: {got} vs {expect_st}")]
+        return [("grouped-twice", f"{what}: statements changed: {got} vs {expect_st}")]
     return []
 
 
